@@ -1,5 +1,5 @@
 (* C15/Driver.v — entry points of the correspondence run (extracted to OCaml). *)
-From RM Require Import C15.Model C15.Schema C15.Widths.
+From RM Require Import C15.Model C15.Schema C15.Widths C15.Utf8.
 From RM Require C19.Model.
 Open Scope Z_scope.
 
@@ -32,3 +32,8 @@ Definition real_conforms (doc : list Z) : bool :=
 (* c15_address_widths' conclusion evaluated on the REAL output *)
 Definition real_widths (w : pwidth) (doc : list Z) : bool :=
   match parse doc with Some j => widths w [] j | None => false end.
+
+(* bytes <-> code points through the Gallina UTF-8 encoder / strict decoder of theorem c15_utf8 (the OCaml glue has no UTF-8
+   code of its own): the model's bytes are compared with the real bytes, the real bytes must decode *)
+Definition encode_utf8 (s : list Z) : list Z := utf8 s.
+Definition decode_utf8 (b : list Z) : option (list Z) := utf8_decode (length b) b.
